@@ -106,3 +106,10 @@ func unhxString(h string) (string, error) {
 	b, err := hex.DecodeString(h)
 	return string(b), err
 }
+
+// spellings of "this body is XML in UTF-8" (RFC 7231 §3.1.1.1: type, subtype, parameter names and the charset value
+// are case-insensitive; the parameter is optional; RFC 7303: application/xml and text/xml)
+var xmlCTSpellings = []string{"application/xml; charset=utf-8", "application/xml", "text/xml", "application/xml; charset=UTF-8", "text/xml; charset=\"UTF-8\"",
+	"Application/XML; Charset=Utf-8", "application/xml;charset=utf-8", "text/xml; charset=utf-8", "application/xml; charset=\"utf-8\""}
+
+func xmlCTSpelling(k int) string { return xmlCTSpellings[k%len(xmlCTSpellings)] }
